@@ -38,7 +38,7 @@ Lemma buf_process_fes_mono c now m w p : InF p (w_fes w) -> InF p (w_fes (fst (b
 Proof.
   intros H. unfold buf_process, shutdown_part. cbn [w_mod set_buf set_fes].
   assert (H1 : InF p (fes_flush (w_buf w) (w_fes w))) by (apply InF_flush; right; exact H).
-  destruct (shut (w_mod w m)) as [[t|]|]; cbn [fst w_fes set_fes set_fin set_mod set_buf]; [apply InF_add; right|..]; exact H1.
+  destruct (shut (w_mod w m)) as [[t|]|]; cbn [fst]; rewrite ?ifse_fes; cbn [w_fes set_fes set_fin set_mod set_buf]; [apply InF_add; right|..]; exact H1.
 Qed.
 
 (* one module event *)
@@ -78,7 +78,7 @@ Proof.
   assert (G : forall u, nw_bump now (nw (w_mod wd i)) = Some u -> InF (u, EvWake i) (fes_flush (w_buf wd) (w_fes wd))).
   { intros u Hu. destruct (nw (w_mod wd i)) as [u0|] eqn:En; [|discriminate]. cbn [nw_bump] in Hu. destruct (u0 <=? now); [discriminate|].
     injection Hu as <-. apply F1. reflexivity. }
-  destruct r as [t|]; cbn [w_mod w_fes set_fes set_fin set_mod set_buf]; rewrite N.eqb_refl; cbn [nw timers];
+  destruct r as [t|]; rewrite ifse_mod, ifse_fes; cbn [w_mod w_fes set_fes set_fin set_mod set_buf]; rewrite N.eqb_refl; cbn [nw timers];
     (split; [|intros C; contradiction]); intros u Hu; [apply InF_add; right|]; apply G, Hu.
 Qed.
 
